@@ -19,6 +19,7 @@ const (
 	kRunsA    = 12 // entries for key a
 	kRunsB    = 13
 	kRemovedA = 14 // key a was removed / context cleared: no entry may follow
+	kReAdded  = 15 // key a may have been removed and added again: instances of different incarnations may overlap (not covered by C07)
 	kKey0     = 20 // +id: key index of instance id
 	kLeft0    = 60
 )
@@ -45,7 +46,7 @@ func keyedInstance(ctx context.Context, key string, outcome int) error {
 	vsched.CtrAdd(kRunsA+ki, 1)
 	a := vsched.CtrAdd(kActiveA+ki, 1)
 	vsched.Observe(oEnter, int64(id), int64(ki), int64(outcome))
-	if a > 1 {
+	if a > 1 && !(ki == 0 && vsched.Ctr(kReAdded) != 0) {
 		fail("C07.overlap", "a second instance of key %q entered its function while another one is still executing", key)
 	}
 	if ki == 0 && removedAtEntry {
@@ -250,22 +251,23 @@ func init() {
 	// K3: retry survives non-restarting calls
 	eng.Register(&eng.Scenario{
 		Name: "keyed-retry", Props: []string{"C07"}, ObsNames: stdObs,
-		Doc:   "Keyed with retry back-off: key a fails on its first run; between the failure and the retry timer every word of length 2 over the non-restarting calls {SetKey(a,false), GetKey(a), SetKey(b,true), SyncKeys([a],false), GetKeys}; at quiescence key a must have run again",
+		Doc:   "Keyed with retry back-off, with/without release delay (choice): key a fails on its first run; around the failure and the retry timer every word of length 2 over {SetKey(a,false), GetKey(a), SetKey(b,true), SyncKeys([a],false), GetKeys, RemoveKey(a)}; at quiescence, if key a is still in the set it must be running again",
 		Quick: eng.Bounds{PB: 2}, Thorough: eng.Bounds{PB: 3},
 		Body: func() {
+			delay := vsched.Choose(2) == 1
 			k := newKeyed(func(key string, run int) int {
 				if key == "a" && run == 1 {
 					return iReturnErr
 				}
 				return iUntilCancelled
-			}, false, true)
+			}, delay, true)
 			k.SetContext(bg, false)
 			k.SetKey("a", true)
 			if vsched.Choose(2) == 1 {
 				vsched.Settle()
 			}
 			for i := 0; i < 2; i++ {
-				switch vsched.Choose(5) {
+				switch vsched.Choose(6) {
 				case 0:
 					k.SetKey("a", false)
 				case 1:
@@ -276,14 +278,21 @@ func init() {
 					k.SyncKeys([]string{"a"}, false)
 				case 4:
 					k.GetKeys()
+				case 5:
+					vsched.CtrSet(kReAdded, 1)
+					k.RemoveKey("a")
 				}
 			}
-			vsched.Settle()
-			if r := vsched.Ctr(kRunsA); r < 2 {
-				fail("C07.retry-lost", "key a failed once and stays in the set with retry configured, but it ran only %d time(s) by quiescence", r)
-			}
-			if vsched.Ctr(kActiveA) != 1 {
-				fail("C07.retry-lost", "key a is not running at quiescence")
+			vsched.Settle() // auto timers: retry and removal timers have run by now
+			if _, present := k.GetKey("a"); present {
+				if r := vsched.Ctr(kRunsA); r < 2 {
+					fail("C07.retry-lost", "key a failed once and is still in the set with retry configured, but it ran only %d time(s) by quiescence", r)
+				}
+				if vsched.Ctr(kActiveA) != 1 {
+					fail("C07.retry-lost", "key a is in the set but not running at quiescence")
+				}
+			} else if vsched.Ctr(kActiveA) != 0 {
+				fail("C07.not-cancelled", "key a is not in the set but an instance of it is still executing at quiescence")
 			}
 			k.ClearContext()
 		},
